@@ -349,7 +349,7 @@ pub fn generate(cfg: &Cfg) -> Vec<String> {
     let mut cases = Vec::new();
     let prof = profile();
     let dna_backends = ["generic", "avx2", "disp-generic", "disp-sse2", "disp-avx2"];
-    let count = (if cfg.thorough { 12_000 } else { 1_000 }) * cfg.boost;
+    let count = (if cfg.thorough { 12_000 } else { 1_500 }) * cfg.boost;
     for n in 0..count {
         let protein = n % 7 == 6;
         let k = if protein { 21 } else { 5 };
